@@ -96,6 +96,9 @@ def clobber_runs(rng, n):
     return len(inputs), fails
 
 
+from numba_scfg.core import transformations as _T  # noqa: E402
+
+
 def reload_runs(rng, n):
     """stage prefixes interleaved with to_dict/from_dict; the final hierarchy is judged against the
     original graph by the Lean deciders (unique names, conserved, path equivalence): a generated
@@ -112,6 +115,17 @@ def reload_runs(rng, n):
                ("restructure_branch", lambda s: s.restructure_branch())]
         reload_after = rng.randint(0, 2)
         ok = True
+        history = rng.choice(["prefix", "prefix", "top-level-loops-first", "pipeline-twice"])
+        if history == "top-level-loops-first":
+            # only the outermost graph's loops (public module function), write/read, then the stages
+            ops = [("join_returns", lambda s: s.join_returns()),
+                   ("transformations.restructure_loop(region)", lambda s: _T.restructure_loop(s.region)),
+                   ("restructure_loop", lambda s: s.restructure_loop()), ("restructure_branch", lambda s: s.restructure_branch())]
+            reload_after = 1
+        elif history == "pipeline-twice":
+            # the whole pipeline, write/read, and the restructuring stages once more on the result
+            ops = ops + [("restructure_loop (again)", lambda s: s.restructure_loop()), ("restructure_branch (again)", lambda s: s.restructure_branch())]
+            reload_after = 2
         for i, (nm, op) in enumerate(ops):
             try:
                 op(scfg)
